@@ -20,6 +20,7 @@ import (
 	"io/fs"
 	"os"
 	"os/exec"
+	"os/signal"
 	"path/filepath"
 	"regexp"
 	"runtime"
@@ -27,6 +28,7 @@ import (
 	"strconv"
 	"strings"
 	"sync"
+	"syscall"
 	"time"
 
 	"verif/tools/instr"
@@ -164,6 +166,19 @@ func prepare(id string, tags string, race bool) (scratch, worker string) {
 	base := os.Getenv("TMPDIR")
 	if base == "" {
 		base = "/tmp"
+	}
+	// scratch directories of runs that were killed (SIGKILL, time limit) are removed by the
+	// next run: the directory name ends in the pid of its owner
+	if old, _ := filepath.Glob(filepath.Join(base, "verif-scratch.*.*")); len(old) > 0 {
+		for _, d := range old {
+			pid, err := strconv.Atoi(d[strings.LastIndexByte(d, '.')+1:])
+			if err != nil || pid == os.Getpid() {
+				continue
+			}
+			if _, err := os.Stat(fmt.Sprintf("/proc/%d", pid)); os.IsNotExist(err) {
+				os.RemoveAll(d)
+			}
+		}
 	}
 	scratch = filepath.Join(base, fmt.Sprintf("verif-scratch.%s.%d", id, os.Getpid()))
 	os.RemoveAll(scratch)
@@ -530,6 +545,13 @@ func main() {
 		os.Exit(2)
 	}
 	defer cleanup()
+	sigc := make(chan os.Signal, 1)
+	signal.Notify(sigc, syscall.SIGINT, syscall.SIGTERM, syscall.SIGHUP, syscall.SIGPIPE)
+	go func() {
+		<-sigc
+		cleanup()
+		os.Exit(2)
+	}()
 	switch os.Args[1] {
 	case "replay":
 		if len(os.Args) < 3 {
